@@ -72,6 +72,18 @@ struct C08 : Scenario {
 			o.mac = rng.chance(1, 3);
 			o.bad_crc_sometimes = true;
 			gen_tree(rng, o, p.members);
+			for (auto &m : p.members)
+				if (m.level == 0 && m.kind == 'f' && rng.chance(1, 4)) {
+					static const uint8_t firsts[] = {'U', 'K', '9', '9', 'M', 0};
+					size_t n = rng.chance(1, 2) ? 12 + rng.below(12) : rng.below(30);
+					Bytes e(n);
+					for (auto &b : e) b = rng.byte();
+					if (n > 0) e[0] = firsts[rng.below(6)];
+					if (n > 1 && rng.chance(2, 3)) e[1] = 0;
+					if (n > 9 && rng.chance(2, 3)) e[9] = 0xcc;
+					if (n >= 12 && (e[0] == 'U' || e[0] == 'K')) e[n - 5] &= 0x0f;
+					m.l0ext = e;
+				}
 			p.sets("base", "generated");
 		} else if (base <= 7 && !repo_archives().empty()) {
 			p.raw = rng.pick(repo_archives());
